@@ -132,9 +132,11 @@ fn normalize_basic_value_for_boundaries(
             quote! {
                 let from0to1 = #arbitrary_in_01_range;
 
-                // Scale range [0; 1] to the range of the boundaries
-                let range = (#upper_value - #lower_value).abs();
-                let x = #lower_value + from0to1 * range;
+                // Scale range [0; 1] to the range of the boundaries.
+                // The boundaries may be arbitrary expressions (e.g. `A + 1.5`), so they are grouped
+                // before being used as operands.
+                let range = ((#upper_value) - (#lower_value)).abs();
+                let x = (#lower_value) + from0to1 * range;
 
                 // Make sure we satisfy the exclusive boundaries
                 let x = #adjust_x_lower;
@@ -149,7 +151,7 @@ fn normalize_basic_value_for_boundaries(
                 // Compute initial basic value
                 let basic_value = #basic_value;
                 let positive_basic_value = basic_value.abs();
-                let x = positive_basic_value + #lower_value;
+                let x = positive_basic_value + (#lower_value);
                 #adjust_x
             }
         }
@@ -160,7 +162,7 @@ fn normalize_basic_value_for_boundaries(
                 // Compute initial basic value
                 let basic_value = #basic_value;
                 let negative_basic_value = -basic_value.abs();
-                let x = negative_basic_value + #upper_value;
+                let x = negative_basic_value + (#upper_value);
                 #adjust_x
             }
         }
@@ -178,7 +180,7 @@ fn gen_adjust_x_for_upper_boundary(
         let upper_value = &upper_boundary.value;
         let next_down = gen_next_down(float_type, upper_value);
         quote! {
-            if x >= #upper_value {
+            if x >= (#upper_value) {
                 // Step to the closest representable value below the exclusive upper boundary.
                 #next_down
             } else {
@@ -198,7 +200,7 @@ fn gen_adjust_x_for_lower_boundary(
         let lower_value = &lower_boundary.value;
         let next_up = gen_next_up(float_type, lower_value);
         quote! {
-            if x <= #lower_value {
+            if x <= (#lower_value) {
                 // Step to the closest representable value above the exclusive lower boundary.
                 #next_up
             } else {
